@@ -418,7 +418,7 @@ maildir_stdin(struct maildir *md, const struct environment *env)
 {
 	char buf[BUFSIZ], name[NAME_MAX + 1];
 	const char *path;
-	ssize_t nr, nw;
+	ssize_t nr, nw, off;
 	int error = 0;
 	int fd;
 
@@ -458,11 +458,13 @@ maildir_stdin(struct maildir *md, const struct environment *env)
 		if (nr == 0)
 			break;
 
-		nw = write(fd, buf, (size_t)nr);
-		if (nw == -1) {
-			warn("write: %s/%s", path, name);
-			error = 1;
-			goto out;
+		for (off = 0; off < nr; off += nw) {
+			nw = write(fd, &buf[off], (size_t)(nr - off));
+			if (nw == -1) {
+				warn("write: %s/%s", path, name);
+				error = 1;
+				goto out;
+			}
 		}
 	}
 
